@@ -220,16 +220,18 @@ def getInterface (B : Nat → LayerB) (c : Nat) : List Inst → Option Nat
       | some r => some r
       | none => getInterface B c rest
 
-/-- `YowStackBuilder`: `push` appends, `pop` drops the last (no error on empty), `build` is
-    `YowStack(layers, reversed=False)`. -/
+/-- `YowStackBuilder`: `push` appends, `pop` drops the last (no error on empty), `pushDefaultLayers` puts the default
+    layers `ds` on top of what the builder holds (`extend ds`), `build` is `YowStack(layers, reversed=False)`. -/
 inductive BuilderOp
   | push (s : Slot)
   | pop
+  | extend (ds : List Slot)
 deriving Repr, DecidableEq
 
 def builderStep (layers : List Slot) : BuilderOp → List Slot
   | .push s => layers ++ [s]
   | .pop => layers.dropLast
+  | .extend ds => layers ++ ds
 
 def builderRun (ops : List BuilderOp) : List Slot := ops.foldl builderStep []
 
@@ -259,5 +261,6 @@ def specBuilder : List Slot → List BuilderOp → List Slot
   | acc, [] => acc
   | acc, .push s :: ops => specBuilder (acc ++ [s]) ops
   | acc, .pop :: ops => specBuilder acc.dropLast ops
+  | acc, .extend ds :: ops => specBuilder (acc ++ ds) ops
 
 end Yow.Stack
